@@ -19,6 +19,7 @@ def twin_knobs(knobs):
     k = dict(knobs)
     k['tie_shuffle'] = False
     k['stall_den'] = 0
+    k['noise'] = 0
     return k
 
 
